@@ -6,6 +6,7 @@ import (
 	"go/types"
 	"math"
 	"math/big"
+	"sort"
 	"strings"
 
 	"golang.org/x/tools/go/ssa"
@@ -970,4 +971,107 @@ func byteSliceMethodsCallTheirNamesake(c *core.Ctx) {
 		core.Undecidedf("only %d methods of ByteSlice are named after a function of package bytes", n)
 	}
 	c.Stat("byte_slice_namesakes", n)
+}
+
+// ---------------------------------------------------------------------------
+// equalsAndHashKeyLookAtTheSameThing: a hashable value is one set member (and
+// one map key) per HashKey, so two values with the same HashKey must be ==,
+// and `in` agrees with comparing.  Where HashKey is computed from what a
+// pointer field points at (the text of a compiled pattern), Equals and Compare
+// do not compare that pointer by identity: two values built from the same
+// text would share a set slot and yet be unequal, and each would order before
+// the other.
+func equalsAndHashKeyLookAtTheSameThing(c *core.Ctx) {
+	p := c.P
+	n := 0
+	byType := map[*types.Named]map[string]*ssa.Function{}
+	for _, fn := range repoFns(p) {
+		if fn.Signature.Recv() == nil || fn.Parent() != nil {
+			continue
+		}
+		switch fn.Name() {
+		case "HashKey", "Equals", "Compare":
+		default:
+			continue
+		}
+		nt := core.NamedOf(fn.Signature.Recv().Type())
+		if nt == nil {
+			continue
+		}
+		if byType[nt] == nil {
+			byType[nt] = map[string]*ssa.Function{}
+		}
+		byType[nt][fn.Name()] = fn
+	}
+	var nts []*types.Named
+	for nt, ms := range byType {
+		if ms["HashKey"] != nil && (ms["Equals"] != nil || ms["Compare"] != nil) {
+			nts = append(nts, nt)
+		}
+	}
+	sort.Slice(nts, func(i, j int) bool { return nts[i].Obj().Name() < nts[j].Obj().Name() })
+	for _, nt := range nts {
+		ms := byType[nt]
+		// pointer fields through which HashKey calls a method
+		through := map[int]bool{}
+		hk := ms["HashKey"]
+		for _, b := range hk.Blocks {
+			for _, in := range b.Instrs {
+				call, ok := in.(*ssa.Call)
+				if !ok || len(call.Call.Args) == 0 || call.Call.StaticCallee() == nil || call.Call.StaticCallee().Signature.Recv() == nil {
+					continue
+				}
+				if u, ok := call.Call.Args[0].(*ssa.UnOp); ok {
+					if fa, ok := u.X.(*ssa.FieldAddr); ok && core.NamedOf(fa.X.Type()) == nt {
+						if _, isPtr := u.Type().Underlying().(*types.Pointer); isPtr {
+							through[fa.Field] = true
+						}
+					}
+				}
+			}
+		}
+		if len(through) == 0 {
+			continue
+		}
+		for _, name := range []string{"Equals", "Compare"} {
+			fn := ms[name]
+			if fn == nil {
+				continue
+			}
+			n++
+			bad := ""
+			for _, b := range fn.Blocks {
+				for _, in := range b.Instrs {
+					bo, ok := in.(*ssa.BinOp)
+					if !ok || (bo.Op != token.EQL && bo.Op != token.NEQ) {
+						continue
+					}
+					fld := func(v ssa.Value) int {
+						if u, ok := v.(*ssa.UnOp); ok {
+							if fa, ok := u.X.(*ssa.FieldAddr); ok && core.NamedOf(fa.X.Type()) == nt {
+								return fa.Field
+							}
+						}
+						return -1
+					}
+					fx, fy := fld(bo.X), fld(bo.Y)
+					if fx >= 0 && fx == fy && through[fx] {
+						bad = p.Pos(bo.Pos())
+					}
+				}
+			}
+			st := nt.Underlying().(*types.Struct)
+			var fnames []string
+			for f := range through {
+				fnames = append(fnames, st.Field(f).Name())
+			}
+			sort.Strings(fnames)
+			c.Check(bad == "", core.SSAName(fn)+"|agrees-with-HashKey-on-"+strings.Join(fnames, "+"), p.Pos(fn.Pos()),
+				core.SSAName(fn)+ife(bad == "", " does not compare the pointer field "+strings.Join(fnames, ", ")+" by identity", " compares the pointer field "+strings.Join(fnames, ", ")+" by identity at "+bad)+", while HashKey is computed from what it points at"+ifs(bad != "", ": two values made from the same text are one member of a set and still not ==, so `in` disagrees with comparing"))
+		}
+	}
+	if n == 0 {
+		c.Pass("repo|hashkey-through-pointers", "", "no hashable type computes its HashKey through a pointer field")
+	}
+	c.Stat("hashkey_through_pointer_types", n)
 }
